@@ -91,6 +91,12 @@ check("C19", "exploration",
       "model-based property testing (rapid): reference model of subscriber sets vs the real event stream, virtual time, white-box table reads",
       "DESIGN.md §4 C19")
 
+check("C20", "exploration",
+      "Generated timelines of Once / Loop / Cron / Cancel / Clear / kill / restart run on the real scheduler (go-quartz underneath) on a virtual clock; a reference model of firing instants decides exact counts, 'not before the delay' and 'nothing at or after cancel / clear / termination / restart' without any tolerance.",
+      "Sampling of timelines on a 100 ms grid; the instant of the ending operation itself accepts either outcome (go-quartz dequeues a job before running it).",
+      "model-based property testing (rapid): reference model of firing instants vs the real scheduler in virtual time",
+      "DESIGN.md §4 C20")
+
 NOT_YET = {}
 
 def main():
